@@ -75,26 +75,6 @@ def c15_duplicate_bucket_dropped(case, detail):
     return False
 
 
-def c15_later_exposure_dropped(case, detail):
-    """C15: the accepted document exposes a histogram bucket series at two different timestamps (a second exposure of
-    its group): group_timestamp_samples is not reset when the timestamp of a group advances, so the samples of the
-    second exposure after its first are dropped before _check_histogram runs."""
-    if not isinstance(case, dict) or 'accepted' not in str(detail):
-        return False
-    seen = {}
-    for h, rest in _om_sample_heads(case.get('doc', '')):
-        if '_bucket' not in h:
-            continue
-        toks = rest.split(' ')
-        ts = toks[1] if len(toks) > 1 and toks[1] != '#' else None
-        if ts is None:
-            continue
-        if h in seen and seen[h] != ts:
-            return True
-        seen.setdefault(h, ts)
-    return False
-
-
 def c15_le_nan_bound(case, detail):
     """C15: the accepted document has a bucket whose le is NaN in another spelling than 'NaN'."""
     import math
